@@ -114,7 +114,7 @@ func checkC02(p *Prog, r *Report) {
 	ex := selectExtracts(sel)
 	recvVal := ex[2+armRecvIndex(sel, arm)] /* Received values follow index and ok. */
 	okVal := ex[1]
-	wParam := ioParam(fn, "Writer")
+	wParam := ioOperand(fn, "Writer")
 	if nil == recvVal || nil == wParam {
 		rAnch.Unproven(fnName(fn)+":pieces", fn.Pos(), "received value or io.Writer parameter not found")
 		return
@@ -136,7 +136,7 @@ func checkC02(p *Prog, r *Report) {
 		}
 		uses := false
 		for _, a := range callArgs(c.Common()) {
-			if stripConv(a, false) == ssa.Value(wParam) {
+			if stripConv(a, false) == wParam {
 				uses = true
 			}
 		}
@@ -181,7 +181,9 @@ func checkC02(p *Prog, r *Report) {
 		if !ok || c.Common().IsInvoke() || nil != c.Common().StaticCallee() {
 			return
 		}
-		if _, isPhi := c.Common().Value.(*ssa.Phi); isPhi && 0 == len(c.Common().Args) {
+		/* The function value may have been chosen by the function which
+		made this one (a literal which captured it). */
+		if _, isPhi := resolveFree(c.Common().Value).(*ssa.Phi); isPhi && 0 == len(c.Common().Args) {
 			fcall = c
 		}
 	})
@@ -352,6 +354,20 @@ func armRecvIndex(sel *ssa.Select, arm int) int {
 }
 
 // ioParam returns fn's parameter of type io.<name>.
+// ioOperand: the io.<name> a function works on: a parameter of that type, or
+// (for a function literal) a variable of that type it captured.
+func ioOperand(fn *ssa.Function, name string) ssa.Value {
+	if pa := ioParam(fn, name); nil != pa {
+		return pa
+	}
+	for _, fv := range fn.FreeVars {
+		if typeIs(fv.Type(), "io", name) {
+			return fv
+		}
+	}
+	return nil
+}
+
 func ioParam(fn *ssa.Function, name string) *ssa.Parameter {
 	for _, pa := range fn.Params {
 		if typeIs(pa.Type(), "io", name) {
@@ -362,13 +378,14 @@ func ioParam(fn *ssa.Function, name string) *ssa.Parameter {
 }
 
 // checkFlushSelection inspects the phi of flush functions.
-func checkFlushSelection(ru *Rule, fn *ssa.Function, fcall *ssa.Call, w *ssa.Parameter) {
-	phi := fcall.Common().Value.(*ssa.Phi)
-	/* Type assertions on w. */
+func checkFlushSelection(ru *Rule, fn *ssa.Function, fcall *ssa.Call, w ssa.Value) {
+	phi := resolveFree(fcall.Common().Value).(*ssa.Phi)
+	/* Type assertions on w, in the function which makes the choice. */
+	w = resolveFree(w)
 	var taFE, taFL *ssa.TypeAssert
-	eachInstr(fn, func(i ssa.Instruction) {
+	eachInstr(phi.Parent(), func(i ssa.Instruction) {
 		ta, ok := i.(*ssa.TypeAssert)
-		if !ok || ta.X != ssa.Value(w) || !ta.CommaOk {
+		if !ok || resolveFree(ta.X) != w || !ta.CommaOk {
 			return
 		}
 		it, ok := ta.AssertedType.Underlying().(*types.Interface)
